@@ -1,11 +1,13 @@
 """C19 -- projection and post-processing return the quantities they name.
 
-The real `tools.project / extrapolate / topoints`, `tools.force / moment`, the stress evaluators of the
-solid bodies, the strain helpers of a field container and the per-cell data of the view classes are
-executed (E1) on real regions over generic cells (free node coordinates, valid-cell precondition) with
-symbolic values.  External callees are contract stubs: the sparse direct solver (`A x = b`), the scipy
-COO constructor (duplicates are summed), the material (StubMaterial: P(F) uninterpreted), the eigen
-backends (C17 contract) and the pyvista dataset (`cell_data[label] = array` stores the array).
+The real `tools.project / extrapolate / topoints`, `tools.force / moment`, `tools.save` (Cauchy point data), the
+stress evaluators of SolidBody / SolidBodyNearlyIncompressible, the strain helpers of a field container
+(`field.evaluate.*`) and the per-cell data of ViewField / ViewSolid are executed (E1) with symbolic values:
+project on the real region templates over generic cells (free node coordinates, valid-cell precondition),
+topoints / extrapolate on real regions over enumerated mesh topologies, the solid-body / field / view code on
+opaque region tables.  External callees are contract stubs: the sparse direct solver (`A x = b`), the scipy COO
+constructor (duplicates are summed), the material (StubMaterial: P(F) uninterpreted), the eigen backends (C17
+contract), the pyvista dataset (`cell_data[label] = array` stores the array) and meshio.Mesh.
 """
 import itertools
 import warnings
@@ -22,11 +24,16 @@ from vk.sparse_stub import DenseCSR
 from vk.symnp import det_ref, ref_einsum
 
 TRUSTED = [
-    "C19: sparse direct solver contract (assumed): solver(A, b) returns the x with A x = b for nonsingular A (column-wise for a 2-d b).  The stub discharges it by certificate: a candidate x0 with A x0 == b (ring identity, checked at the call) is the solution because A is nonsingular; small systems are additionally solved explicitly through the adjugate (vk.symnp._linalg_solve)",
+    "C19: sparse direct solver contract (assumed): solver(A, b) returns the x with A x = b for nonsingular A (column-wise for a 2-d b).  The stub discharges it by certificate: a candidate x0 with A x0 == b (ring identity, checked at the call) is the solution because A is nonsingular; without a candidate it returns fresh unknowns x constrained only by A x = b and the obligations carry the linear combination of these equations they use (project_integral)",
     "C19: paper lemma (nonsingular volume matrix): A = sum_c P_c^T H_c^T diag(dV_c) H_c P_c with dV > 0 is positive definite on the points attached to cells iff every cell's table H_c[q, a] = h_a(xi_q) has full column rank (x^T A x = sum_qc dV_qc (H_c x_c)_q^2); the rank is computed exactly on the rational table (ground obligation 'sufficient rule'), dV > 0 is an oracle obligation, rows of points without cells are unit rows (obligation)",
-    "C19: scipy COO contract (assumed, vk/coo.py): csr_matrix((data, (i, j)), shape) sums duplicates; toarray() returns the dense array (the `out=` argument of toarray is honoured); diagonal(), tolil(), item assignment and tocsr() of the dense stand-in (vk/sparse_stub.py) are the obvious dense operations, differentially tested against scipy in sparse_stub.selfcheck",
-    "C19: the region tables are under the C06 contract (h = element functions at the quadrature points, dV = det(dX/dr) w > 0 on valid cells, sum_a h_a = 1); Mesh.disconnect numbers the points of the disconnected mesh cell by cell (point k = cell k // npc, local point k % npc; C16 contract)",
-    "C19: linearity (paper lemma): project / extrapolate / topoints act on the tensor components independently; obligations are instantiated for scalar, vector and (3,3) values",
+    "C19: scipy COO contract (assumed, vk/coo.py): csr_matrix((data, (i, j)), shape) sums duplicates; toarray() returns the dense array (the `out=` argument of toarray is honoured); diagonal(), tolil(), item assignment and tocsr() of the dense stand-in (vk/sparse_stub.py) are the obvious dense operations, differentially tested against scipy in sparse_stub.selfcheck; scipy.sparse.issparse is true for the stand-in",
+    "C19: the region tables are under the C06 contract (h = element functions at the quadrature points, dV = det(dX/dr) w > 0 on valid cells, sum_a h_a = 1); Field.interpolate / grad / extract incl. FieldPlaneStrain and FieldAxisymmetric are under the C06 field_kinds contract; Mesh.disconnect numbers the points of the disconnected mesh cell by cell (point k = cell k // npc, local point k % npc; C16 contract)",
+    "C19: OpaqueTables = callee contract of Region for the solid-body / field / view code: h, dhdX, dV are free reals (dV > 0), i.e. every region with the given connectivity; configurations labelled tables=fixed use one table set in general position instead (noted per configuration)",
+    "C19: material = vk.stubs.StubMaterial (C03 contract: gradient([F, statevars]) returns [P(F), statevars] with P an uninterpreted function of F; out= honoured); AreaChange.function == J F^-T (C03 kinematics contract)",
+    "C19: let-abstraction of the pressure state of SolidBodyNearlyIncompressible: the real StateNearlyIncompressible is passed through the documented `state` argument with a pressure array that stores a fresh symbol for every update; the stress identities are thus proved for every pressure state (the update formula of p belongs to C10)",
+    "C19: eigen backends (np.linalg.eigh / eigvalsh) are contract stubs returning fresh eigenvalues / eigenvectors (C17 contract of the math wrappers incl. their axis conventions; eigvalsh ascending); math.tovoigt, equivalent_von_mises, strain_stretch_1d, cross (np.cross) are under the C17 contract and executed",
+    "C19: pyvista dataset contract (assumed): mesh.cell_data[label] = array stores the array with one row per cell, rows flattened in C order; the symbolic run uses a recording stand-in for Mesh.as_pyvista, the paired native run the real pyvista.UnstructuredGrid; meshio.Mesh is a recording stand-in in save_cauchy (files: C20)",
+    "C19: linearity (paper lemma): project / extrapolate / topoints act on the tensor components independently; obligations are instantiated for scalar, (3,) vector, (3,3) and non-square (2,3) values",
 ]
 
 E = fem.element
@@ -234,10 +241,13 @@ def _project_configs():
             for dv in ("region", "user"):
                 for avg in (True, False):
                     quick = name in ("RegionQuad", "RegionTriangle") or (name == "RegionTetra" and order == "vector")
-                    cfg = dict(template=name, values=order, dV=dv, average=avg, cells=2 if tier2 == "quick" or True else 1)
+                    cfg = dict(template=name, values=order, dV=dv, average=avg, cells=2)
                     if not quick:
                         cfg["tier"] = "thorough"
                     out.append(cfg)
+    # single cells with the solver contract discharged by the explicit exact solve (adjugate) instead of a certificate
+    out.append(dict(template="RegionTriangle", values="vector", dV="user", average=True, cells=1, solve="explicit"))
+    out.append(dict(template="RegionQuad", values="scalar", dV="region", average=True, cells=1, solve="explicit"))
     return out
 
 
@@ -275,7 +285,8 @@ def project_contract(vk, cfg):
     else:
         dV = None
     dVeff = work.dV if dV is None else dV
-    solver = CertifiedSolver(vk, candidate=target.reshape(-1, size))
+    explicit = cfg.get("solve") == "explicit"
+    solver = CertifiedSolver(vk, candidate=None if explicit else target.reshape(-1, size), explicit_max=4 if explicit else 0)
     vals0 = vk.snapshot(vals)
     call_region = region
     with _bound_project(vk, solver):
@@ -300,7 +311,7 @@ def project_contract(vk, cfg):
         H = np.asarray(hq[:, :, 0], dtype=object).T
         vk.ensures_true("sufficient-rule: h table has full column rank", _full_column_rank(H), f"table {H.shape}")
         vk.ensures_true("dV>0", all(oracle.decide(co(x), ">") for x in np.asarray(dVeff, dtype=object).ravel()), "differential volumes of the call are positive", backend="oracle")
-        vk.ensures_true("solver-contract discharged by certificate A.u==b", solver.how == "certificate", str(solver.how), backend="ring")
+        vk.ensures_true("solver-contract discharged by " + ("the explicit exact solve" if explicit else "certificate A.u==b"), solver.how == ("explicit" if explicit else "certificate"), str(solver.how), backend="ring")
     vk.ensures_eq("project==nodal values", out, target)
     if vk.sym:
         vk.canary("project==2u", out, 2 * target)
@@ -347,7 +358,7 @@ def project_integral(vk, cfg):
     integral = ref_einsum("kqc,qc->k", vals.reshape(size, nq, ncells), dVeff)
     lhs = _interp_integral(vk, hq, np.asarray(out), cells_w, dVeff, size)
     if not vk.sym:
-        vk.ensures_eq("integral(projected field) == sum_qc values dV", lhs, integral)
+        vk.ensures_eq("integral(projected field) == sum_qc values dV (mod solver contract A x = b)", lhs, integral)
         return
     vk.ensures_true("solver-called-once", len(solver.calls) == 1, f"{len(solver.calls)} calls", backend="exec")
     A, b = solver.calls[0]
@@ -632,8 +643,7 @@ def topoints_contract(vk, cfg):
             with coo.bound() if vk.sym else _nullcontext():
                 out = fem.topoints(vals, region, average=a, mean=m)
             spec = _topoints_spec(vk, vals, cells, mesh.npoints, region.quadrature.weights, a, m)
-            tol = 1e-13 if (m and vk.sym) else None  # float weights: sum_q w_q m / sum_q w_q
-            vk.ensures_eq(f"{label}/nq={nq},{o},average={a},mean={m}", out, spec, tol=None)
+            vk.ensures_eq(f"{label}/nq={nq},{o},average={a},mean={m}", out, spec)
             if a and not m and o == "vector" and nq == nqs[0]:
                 vk.frame_unchanged(f"{label}/values", vals, v0)
                 if vk.sym and ncanary < 3 and ncells > 1 and mesh.npoints < ncells * npc:
@@ -755,6 +765,8 @@ def project_mean(vk, cfg):
     nq = region.h.shape[1]
     vals = _values(vk, "v", (2, nq, ncells))
     dV = vk.reals("dVuser", (nq, ncells), near=0.4, spread=0.2)
+    for x in dV.ravel():
+        vk.requires(x, ">")
     solver = CertifiedSolver(vk)
     with _bound_project(vk, solver):
         out = fem.project(vals, region, average=avg, mean=True, dV=dV)
@@ -921,16 +933,9 @@ def stress_contract(vk, cfg):
         solid = scls(umat, field_a)
 
     def spec(F, J, cauchy):
-        P = umat._map(F, "P")
-        if ni:
-            # total first Piola-Kirchhoff stress of the formulation: P(F) + p J F^-T with the solid's pressure state
-            p = np.asarray(solid.results.state.p)
-            cof = np.empty(F.shape, dtype=F.dtype)
-            for q in range(F.shape[2]):
-                for c in range(F.shape[3]):
-                    cof[:, :, q, c] = symnp.adj_ref(F[:, :, q, c]).T if Fd == 3 else np.array([[F[1, 1, q, c], -F[1, 0, q, c]], [-F[0, 1, q, c], F[0, 0, q, c]]])
-            P = P + p.reshape(1, 1, 1, -1) * cof
-        tau = ref_einsum("ikqc,jkqc->ijqc", P, F)
+        # P: the stub's P(F) (SolidBody) / the total first Piola-Kirchhoff stress P(F) + p J F^-T of the nearly
+        # incompressible formulation with the solid's pressure state p at the time of the call
+        tau = ref_einsum("ikqc,jkqc->ijqc", _P_total(vk, umat, solid, F, ni, Fd), F)
         if cauchy and Fd == 3:
             tau = tau / np.asarray(J)[None, None]
         return tau
@@ -941,7 +946,6 @@ def stress_contract(vk, cfg):
             val = getattr(solid.evaluate, which)(*args)
         return val, [str(x.message) for x in w]
 
-    results = []
     # 1. right after construction, no argument: the state of the constructor's field
     t, w = call("kirchhoff_stress")
     vk.ensures_eq("1/kirchhoff_stress() after construction == P F^T", t, spec(Fs[0], Js[0], False))
@@ -967,7 +971,7 @@ def stress_contract(vk, cfg):
     vk.ensures_eq("4/kirchhoff_stress(first field again) == P F^T of its values", t, spec(Fa, None, False))
     # the first Piola-Kirchhoff stress the view uses (stress_type=None)
     Pv = solid.evaluate.stress(field_b)
-    vk.ensures_eq("evaluate.stress(field) == P of that field", Pv, spec(Fs[2], Js[2], False) if False else _P_total(vk, umat, solid, Fs[2], ni, Fd))
+    vk.ensures_eq("evaluate.stress(field) == P of that field", Pv, _P_total(vk, umat, solid, Fs[2], ni, Fd))
     if vk.sym:
         vk.canary("kirchhoff==cauchy", t, spec(Fa, det_ref(Fa), True) if Fd == 3 else 2 * t)
         vk.canary("stale-state", t, spec(Fs[0], Js[0], False))
@@ -1243,23 +1247,23 @@ def view_cell_data(vk, cfg):
     mean_q = lambda A: ref_einsum("kqc->ck", A.reshape((-1,) + A.shape[-2:])) / nq  # (c, components in C order)
     if cfg.get("only") == "defgrad":
         vk.ensures_eq("Deformation Gradient: row-major mean over q of F", _rows(cd["Deformation Gradient"], nc), mean_q(F))
-        vk.canary("Deformation Gradient==0", _rows(cd["Deformation Gradient"], nc), 0 * mean_q(F)) if vk.sym else None
+        if vk.sym:
+            vk.canary("Deformation Gradient==0", _rows(cd["Deformation Gradient"], nc), 0 * mean_q(F))
         return
     # the set of 9 components per cell (the component ORDER is the separate contract view_defgrad)
     vk.ensures_eq("Deformation Gradient: diagonal components and sum of all components", np.stack([_rows(cd["Deformation Gradient"], nc)[:, k] for k in (0, 4, 8)] + [np.sum(_rows(cd["Deformation Gradient"], nc), axis=1)]), np.stack([mean_q(F)[:, k] for k in (0, 4, 8)] + [np.sum(mean_q(F), axis=1)]))
-    if not vk.sym:
-        return
-    byarg = {}
-    for kindc, a, w, V in eb.calls:
-        byarg.setdefault(kindc, []).append((a, w, V))
-    # strains: one eigh (tensor) and one eigvalsh (principal values) of C of the viewed field
-    (a, w, V), = byarg["eigh"]
-    vk.ensures_eq("Logarithmic Strain/decomposed tensor is C of the viewed field", a, _batch_first(C))
-    vk.ensures_eq("Logarithmic Strain: mean over q (Voigt storage)", _rows(cd["Logarithmic Strain"], nc), mean_q(_strain_from_backend(0, w, V, True, True)))
-    ev = byarg["eigvalsh"]
-    a, w, V = ev[-1]
-    vk.ensures_eq("Principal Values of Logarithmic Strain/decomposed tensor is C", a, _batch_first(C, "eigvalsh"))
-    vk.ensures_eq("Principal Values of Logarithmic Strain: mean over q", _rows(cd["Principal Values of Logarithmic Strain"], nc), mean_q(_strain_from_backend(0, w, V, False, False, "eigvalsh")))
+    if vk.sym:
+        byarg = {}
+        for kindc, a, w, V in eb.calls:
+            byarg.setdefault(kindc, []).append((a, w, V))
+        # strains: one eigh (tensor) and one eigvalsh (principal values) of C of the viewed field
+        (a, w, V), = byarg["eigh"]
+        vk.ensures_eq("Logarithmic Strain/decomposed tensor is C of the viewed field", a, _batch_first(C))
+        vk.ensures_eq("Logarithmic Strain: mean over q (Voigt storage)", _rows(cd["Logarithmic Strain"], nc), mean_q(_strain_from_backend(0, w, V, True, True)))
+        ev = byarg["eigvalsh"]
+        a, w, V = ev[-1]
+        vk.ensures_eq("Principal Values of Logarithmic Strain/decomposed tensor is C", a, _batch_first(C, "eigvalsh"))
+        vk.ensures_eq("Principal Values of Logarithmic Strain: mean over q", _rows(cd["Principal Values of Logarithmic Strain"], nc), mean_q(_strain_from_backend(0, w, V, False, False, "eigvalsh")))
     if solid is not None:
         P = umat._map(F, "P")
         S = ref_einsum("ikqc,jkqc->ijqc", P, F)
@@ -1269,15 +1273,71 @@ def view_cell_data(vk, cfg):
         elif st is None:
             S = P
         label = f"{st} Stress" if st else "Stress"
+        if vk.sym:
+            a, w, V = ev[0]
+            vk.ensures_eq(f"Principal Values of {label}/decomposed tensor is the stress", a, _batch_first(S, "eigvalsh"))
+            vk.ensures_eq(f"Principal Values of {label}: mean over q", _rows(cd[f"Principal Values of {label}"], nc), mean_q(_lam(w, "eigvalsh")))
         vk.ensures_true("stress labels", sorted(k for k in cd if "Stress" in k) == sorted([label, f"Principal Values of {label}", f"Equivalent of {label}"]), str(sorted(cd)), backend="exec")
         vk.ensures_eq(f"{label}: mean over q (Voigt storage) of the stress of the viewed field", _rows(cd[label], nc), mean_q(np.array([S[i, j] for i, j in VOIGT])))
-        a, w, V = ev[0]
-        vk.ensures_eq(f"Principal Values of {label}/decomposed tensor is the stress", a, _batch_first(S, "eigvalsh"))
-        vk.ensures_eq(f"Principal Values of {label}: mean over q", _rows(cd[f"Principal Values of {label}"], nc), mean_q(_lam(w, "eigvalsh")))
         dev = S.copy()
         tr = (S[0, 0] + S[1, 1] + S[2, 2]) / 3
         for i in range(3):
             dev[i, i] = dev[i, i] - tr
-        vm = symnp._sqrt(ref_einsum("ijqc,ijqc->qc", dev, dev) * 3 / 2)
+        vm = symnp._sqrt(np.asarray(ref_einsum("ijqc,ijqc->qc", dev, dev) * 3 / 2))
         vk.ensures_eq(f"Equivalent of {label}: mean over q of sqrt(3/2 dev:dev)", _rows(cd[f"Equivalent of {label}"], nc), mean_q(vm[None]))
-    vk.canary("Deformation Gradient==0", _rows(cd["Deformation Gradient"], nc), 0 * mean_q(F))
+    if vk.sym:
+        vk.canary("Deformation Gradient==0", _rows(cd["Deformation Gradient"], nc), 0 * mean_q(F))
+
+
+# ---- tools.save: the Cauchy stress point data (the arrays handed to meshio otherwise: C20) --------------------------
+@contract("C19", "save_cauchy", configs=[dict(nq=4), dict(nq=1)])
+def save_cauchy(vk, cfg):
+    """tools.save(region, field, gradient=[P]): point data "Cauchy Stress" is, at each point, the mean over the
+    attached cells of P F^T / det F shifted to the points (topoints); the principal items are the ascending
+    eigenvalues (eigvalsh contract) shifted the same way: Max = [2], Int = [1], Min = [0], shear = [2] - [0]"""
+    import sys
+    import types
+
+    vk.real(fem.tools.save)
+    nq = cfg["nq"]
+    cells = np.array([[0, 1, 2, 3], [1, 2, 3, 4]])
+    nc, npc = cells.shape
+    region = OpaqueTables(vk, cells, 3, nq, concrete=True, cell_type="tetra")
+    u = vk.reals("u", (region.mesh.npoints, 3), near=0.0, spread=0.08)
+    F = _F_spec(vk, "3d", region, region.mesh, cells, u)
+    J = _require_detF(vk, F)
+    P = vk.reals("P", (3, 3, nq, nc), near=0.0, spread=1.0)
+    field = fem.FieldContainer([fem.Field(region, dim=3, values=u.copy())])
+    got = {}
+
+    class Mesh:
+        def __init__(s, points, cells, point_data=None, cell_data=None, **kw):
+            got.update(points=points, cells=cells, point_data=point_data, cell_data=cell_data)
+
+        def write(s, filename):
+            got["filename"] = filename
+
+    stub = types.ModuleType("meshio")
+    stub.Mesh = Mesh
+    saved = sys.modules.get("meshio")
+    sys.modules["meshio"] = stub
+    try:
+        with _EigenBackends(vk) if vk.sym else _nullcontext() as eb, coo.bound() if vk.sym else _nullcontext():
+            fem.tools.save(region, field, gradient=[P], filename="c19.vtu")
+    finally:
+        if saved is not None:
+            sys.modules["meshio"] = saved
+        else:
+            del sys.modules["meshio"]
+    pd = got["point_data"]
+    S = ref_einsum("ikqc,jkqc->ijqc", P, F) / np.asarray(J)[None, None]
+    w = np.ones(nq)
+    vk.ensures_eq("Cauchy Stress == topoints(P F^T / det F)", pd["Cauchy Stress"], _topoints_spec(vk, S, cells, region.mesh.npoints, w, True, False))
+    if not vk.sym:
+        return
+    kindc, a, lam, V = eb.calls[0]
+    vk.ensures_eq("decomposed tensor is the Cauchy stress", a, _batch_first(S, "eigvalsh"))
+    pr = _topoints_spec(vk, _lam(lam, "eigvalsh"), cells, region.mesh.npoints, w, True, False)  # (p, 3) ascending
+    for label, spec in (("Max. Principal", pr[:, 2]), ("Int. Principal", pr[:, 1]), ("Min. Principal", pr[:, 0]), ("Max. Principal Shear", pr[:, 2] - pr[:, 0])):
+        vk.ensures_eq(f"Cauchy Stress ({label})", pd[f"Cauchy Stress ({label})"], spec)
+    vk.canary("Cauchy Stress == Kirchhoff stress at the points", pd["Cauchy Stress"], _topoints_spec(vk, ref_einsum("ikqc,jkqc->ijqc", P, F), cells, region.mesh.npoints, w, True, False))
